@@ -62,7 +62,7 @@ Proof. exact parsers_never_out_of_fuel_lemma. Qed.
 Print Assumptions parsers_never_out_of_fuel.
 
 (* Over ALL header renderers, ALL source/channel parameters, ALL histories of START / publish / flush / PAUSE /
-   UNPAUSE / STOP (any length, any interleaving, refused requests included) and every point k of the history:
+   UNPAUSE / STOP / ConfigurePulseLengths (any length, any interleaving, refused requests included) and every point k:
    while a writing cycle is open, each file the model has created holds exactly
         header ++ [OFF: projectors ++ basis ++] concat (map record (records accepted while active and unpaused))
    and its length is |header| + the sum of the record sizes; a file that was not created means that nothing was
@@ -70,11 +70,13 @@ Print Assumptions parsers_never_out_of_fuel.
    Spec.sstep), [ps] the model's publishers after the first k requests.  LJH 2.2: sub-frame count
    frame*divisions+offset, microseconds = ns/1000 (Z.quot: toward zero, as Go divides). *)
 Theorem file_is_header_plus_records :
-  forall (render22 : hdr22 -> list Z) (render3 : hdr3 -> list Z) (renderoff : hdroff -> list Z) sp cs ops k,
-    cfg_wf sp cs -> Forall (op_wf sp cs) ops ->
-    let obs := snd (brun render22 render3 renderoff true sp cs (binit cs) ops) in
-    let st := sst_before cs (s_init cs) (combine ops obs) k in
-    let ps := fst (brun render22 render3 renderoff true sp cs (binit cs) (firstn k ops)) in
+  forall (render22 : hdr22 -> list Z) (render3 : hdr3 -> list Z) (renderoff : hdroff -> list Z) sp0 cs0 ops k,
+    cfg_wf sp0 cs0 ->
+    let obs := snd (crun render22 render3 renderoff true sp0 cs0 (binit cs0) ops) in
+    hist_wf sp0 cs0 (combine ops obs) ->
+    let chk := chk_before sp0 cs0 (s_init cs0) (combine ops obs) k in
+    let sp := fst (fst chk) in let cs := snd (fst chk) in let st := snd chk in
+    let ps := snd (fst (crun render22 render3 renderoff true sp0 cs0 (binit cs0) (firstn k ops))) in
     s_active st = true ->
     all4 (fun c acc accoff p =>
       (* LJH 2.2 *)
@@ -126,25 +128,49 @@ Print Assumptions stop_reports_contents.
 
 (* The headline: for ALL renderers, parameters and histories (requests addressing existing channels, record fields
    within the layouts' ranges, the two float oracles being what they claim), the observations of the model --
-   every request's outcome and, at every STOP, every channel's files -- pass the independent checker: headers
+   every request's outcome (pulse-length requests through SourceControl included: refused while a cycle is open,
+   so a file's records all have the lengths its header states) and, at every STOP, every channel's files -- pass
+   the independent checker: headers
    state the channel's true parameters, bodies parse with nothing left over into exactly the records accepted
    while active and unpaused, sizes add up, no file for a type that was not requested. *)
 Theorem model_passes_checker :
   forall (render22 : hdr22 -> list Z) (render3 : hdr3 -> list Z) (renderoff : hdroff -> list Z) sp cs ops,
-    cfg_wf sp cs -> Forall (op_wf sp cs) ops ->
-    C05_bench_check sp cs (combine ops (snd (brun render22 render3 renderoff true sp cs (binit cs) ops))) = true.
+    cfg_wf sp cs ->
+    hist_wf sp cs (combine ops (snd (crun render22 render3 renderoff true sp cs (binit cs) ops))) ->
+    C05_bench_check sp cs (combine ops (snd (crun render22 render3 renderoff true sp cs (binit cs) ops))) = true.
 Proof. exact model_passes_checker_full. Qed.
 Print Assumptions model_passes_checker.
 
 Example model_passes_checker_nonvacuous :
-  let sp := mksrcp 1 [76] 4 1 4 1 100000 4532020583610935537 1000000 (-5) in
+  let sp := mksrcp 1 [76] 4 3 8 1 100000 4532020583610935537 1000000 (-5) in
   let cs := [mkchanp 0 [99] 1 4 2 2 1 2 0 0 [] None] in
-  cfg_wf sp cs /\ Forall (op_wf sp cs) [BStart true true false; BPub 0 [mkrec 7 (-1500) 1 [1; 2; 3; 65535] 0 0 0 []]; BStop].
+  let ops := [BPulse 4 3; BStart true true false; BPause; BPulse 6 4; BUnpause;
+              BPub 0 [mkrec 7 (-1500) 3 [1; 2; 3; 65535] 0 0 0 []]; BStop] in
+  cfg_wf sp cs /\
+  hist_wf sp cs (combine ops (snd (crun (fun _ => []) (fun _ => []) (fun _ => []) true sp cs (binit cs) ops))) /\
+  snd (crun (fun _ => []) (fun _ => []) (fun _ => []) true sp cs (binit cs) ops) =
+  [BOk; BOk; BOk; BErr; BOk; BOk;
+   BFiles [mkcf (FFile (mkh22 2 2 4 2 2 1 1 [99] 1 0 4 2 2 3 4 1 1000000 (-5) 0 0 [] [76]) 24 0
+                       [30; 0; 0; 0; 0; 0; 0; 0; 255; 255; 255; 255; 255; 255; 255; 255; 1; 0; 2; 0; 3; 0; 255; 255])
+                (FFile (mkh3 [76; 74; 72; 51] [51; 46; 48; 46; 48] 4532020583610935537 4 2 4 2 1 2) 32 0
+                       [4; 0; 0; 0; 4; 0; 0; 0; 7; 0; 0; 0; 0; 0; 0; 0; 255; 255; 255; 255; 255; 255; 255; 255;
+                        1; 0; 2; 0; 3; 0; 255; 255])
+                FAbsent]].
 Proof.
-  split.
+  intros sp cs ops.
+  assert (E : snd (crun (fun _ => []) (fun _ => []) (fun _ => []) true sp cs (binit cs) ops) =
+              [BOk; BOk; BOk; BErr; BOk; BOk;
+               BFiles [mkcf (FFile (mkh22 2 2 4 2 2 1 1 [99] 1 0 4 2 2 3 4 1 1000000 (-5) 0 0 [] [76]) 24 0
+                                   [30; 0; 0; 0; 0; 0; 0; 0; 255; 255; 255; 255; 255; 255; 255; 255; 1; 0; 2; 0; 3; 0; 255; 255])
+                            (FFile (mkh3 [76; 74; 72; 51] [51; 46; 48; 46; 48] 4532020583610935537 4 2 4 2 1 2) 32 0
+                                   [4; 0; 0; 0; 4; 0; 0; 0; 7; 0; 0; 0; 0; 0; 0; 0; 255; 255; 255; 255; 255; 255; 255; 255;
+                                    1; 0; 2; 0; 3; 0; 255; 255])
+                            FAbsent]]) by (vm_compute; reflexivity).
+  split; [|split; [|exact E]].
   - split; [discriminate|]. split; [cbn; lia|]. split; [vm_compute; reflexivity|]. split; [vm_compute; reflexivity|].
     intros c pj bs desc [<- | []] H. discriminate H.
-  - repeat constructor; cbn; try lia; discriminate.
+  - rewrite E. subst sp cs ops. cbn [combine hist_wf]. cbn.
+    repeat split; cbn; try lia; try discriminate; repeat constructor; cbn; try lia; try discriminate.
 Qed.
 
 (* Level (i): the writers of packages ljh and off driven directly.  For ALL renderers, ALL struct fields [h] whose
@@ -233,8 +259,8 @@ Theorem model_passes_checker_refuted_pre_fix :
   let sp := mksrcp 1 [76] 4 1 4 1 100000 4532020583610935537 1000000 (-5) in
   let cs := [mkchanp 0 [99] 1 4 2 2 1 2 0 0 [] None] in
   let ops := [BStart false true false; BPub 0 [mkrec 7 1000 1 [1; 2; 3; 4] 0 0 0 []]; BStop] in
-  cfg_wf sp cs /\ Forall (op_wf sp cs) ops /\
-  C05_bench_check sp cs (combine ops (snd (brun (fun _ => []) (fun _ => []) (fun _ => []) false sp cs (binit cs) ops))) = false /\
-  C05_bench_check sp cs (combine ops (snd (brun (fun _ => []) (fun _ => []) (fun _ => []) true sp cs (binit cs) ops))) = true.
+  cfg_wf sp cs /\ hist_wf sp cs (combine ops (snd (crun (fun _ => []) (fun _ => []) (fun _ => []) true sp cs (binit cs) ops))) /\
+  C05_bench_check sp cs (combine ops (snd (crun (fun _ => []) (fun _ => []) (fun _ => []) false sp cs (binit cs) ops))) = false /\
+  C05_bench_check sp cs (combine ops (snd (crun (fun _ => []) (fun _ => []) (fun _ => []) true sp cs (binit cs) ops))) = true.
 Proof. exact pre_fix_witness. Qed.
 Print Assumptions model_passes_checker_refuted_pre_fix.
